@@ -42,7 +42,7 @@ def k7_part(ctx: vlib.Ctx):
     """kernel K7 (arg_indexes loop of pack_tuple/unpack_tuple): theorems + validation of the translation by
     running the very loop of the source on abstract argument lists"""
     import ast
-    ctx.theorems("props/C03_tuple_kernel.vo", ["C03_tuple_indexes", "C03_tuple_short_input_refuted"], kernels=["K7"])
+    ctx.theorems("props/C03_tuple_kernel.vo", ["C03_tuple_indexes", "C03_tuple_short_input_refuted", "C03_model_plan_is_code"], kernels=["K7"])
     if not ctx.kernel_report.get("K7", {}).get("ok"):
         return
     src = open(vlib.REPO + "/mashumaro/core/meta/types/unpack.py").read()
@@ -192,17 +192,23 @@ def run(ctx: vlib.Ctx):
     ctx.coverage["rule"] = ("schemas from the shared grammar generator x inputs = encoder output of conforming values plus a foreign stream "
                             "(one position of a valid wire value replaced by a wrong JSON type / removed / null / extra key / surplus item, or pure junk); "
                             "distinct = (type tree, input) pairs; non-trivial = input is not the unmodified encoder output")
-    ctx.theorems("props/C03_unpack.vo", ["C03_unpack_ref", "C03_field_unpacker", "C03_well_typed", "C03_well_typed_ord", "C03_str_input_any_fuel", "C03_str_fuel_sufficient"])
+    ctx.theorems("props/C03_unpack.vo", ["C03_unpack_ref", "C03_strict_or_same", "C03_unpack_ref_partial", "C03_unpack_short_input_refuted", "C03_unpack_ref_refuted",
+                                         "C03_field_unpacker", "C03_well_typed", "C03_well_typed_ord", "C03_str_input_any_fuel", "C03_str_fuel_sufficient", "C03_str_fuel_sufficient_ranked"])
     ctx.trusted += ["tools/kernels/k7_tuple_indexes.py (translator of the arg_indexes loop; validated each run against the source loop executed on abstract argument lists)"]
     ctx.trusted += ["TyModel.v (cu/uk: hand-written model of unpack.py registry order incl. iteration of str/dict inputs, tuple surplus, field lookup, "
                     "NamedTuple positions with trailing defaults, TypedDict required/optional keys) "
                     "tied by vm_compute correspondence; stdlib constructors (int/float/str, fromisoformat, UUID, Decimal, ..., decodebytes, Enum()) are oracle tables"]
-    ctx.assumptions += ["abstract collections, tuples with unpacked segments, unions/literals are decided by the oracle only; NamedTuple (as_list form) and TypedDict are "
-                        "inside the Coq grammar (C03_unpack_ref, C03_well_typed + correspondence incl. inputs with one nested sequence cut short); sequence-like "
+    ctx.assumptions += ["unions/literals are decided by the oracle only; the collection unpackers rebuilding canonical concrete classes (Sequence->list, Mapping->dict, Deque, OrderedDict, "
+                        "DefaultDict, MappingProxyType, Counter with int(), ChainMap from a list of maps), NamedTuple (as_list form), TypedDict and tuples with an unpacked segment are "
+                        "inside the Coq grammar (C03_unpack_ref = the as-generated reading of the reference on every input; C03_unpack_ref_partial = the documented reference "
+                        "unless it says 'too few items'; the unguarded statement is refuted: known finding unpacked-tuple-short-input; C03_well_typed; correspondence incl. "
+                        "inputs with one nested sequence cut short and every prefix of an unpacked-tuple input); constant positions are recursive (fixed tuples of constants, "
+                        "default-less NamedTuples of constants); nested Unpack / TypeVarTuple segments are oracle only; sequence-like "
                         "inputs of a NamedTuple/fixed tuple other than list/tuple/str (bytes, dicts with integer keys, NamedTuple instances) are not modelled; "
                         "namedtuple_as_dict and generic NamedTuples/TypedDicts are oracle only"]
 
     k7_part(ctx)
+    ctx.coqchk(["VerifProps.C03_unpack", "VerifProps.C03_tuple_kernel"])
     cases, bad, log = tycorr.run(ctx, "c03_ty", ctx.budget(60, 400), 2, depth=3, foreign=4)
     hits = tyoracle.report_corr(ctx, "TyModel.uk/ref_dec vs BasicDecoder.decode", cases, bad, log, want="dec")
 
